@@ -79,13 +79,22 @@ Print Assumptions C11_agreement_matches_hamming_refuted.
 
 (* ... and it holds for the corrected rule hamming(phasing0[0], phasing1[0]) < hamming(phasing0[0],
    complement(phasing1[0])) (model function agreement_fixed; after the repair of /repo switch
-   `Definition orientation` in model/Compare.v to orientation_fixed, then agreement = agreement_fixed). *)
+   `Definition agreement` in model/Compare.v to agreement_fixed). *)
 Theorem C11_agreement_matches_hamming_fixed : forall (p0 p1 : hap) (e : phasing_errors),
   length p0 = length p1 ->
   compare_block_dip (p0, complement p0) (p1, complement p1) = Some e ->
   zeros (agreement_fixed (p0, complement p0) (p1, complement p1)) = pe_hamming e.
 Proof. exact agreement_fixed_matches_hamming. Qed.
 Print Assumptions C11_agreement_matches_hamming_fixed.
+
+(* the same for the alternative repair that compares with phasing1[1] instead of complement(phasing1[0])
+   (it also removes the KeyError on alleles >= 2); model function agreement_fixed_alt *)
+Theorem C11_agreement_matches_hamming_fixed_alt : forall (p0 p1 : hap) (e : phasing_errors),
+  length p0 = length p1 ->
+  compare_block_dip (p0, complement p0) (p1, complement p1) = Some e ->
+  zeros (agreement_fixed_alt (p0, complement p0) (p1, complement p1)) = pe_hamming e.
+Proof. exact agreement_fixed_alt_matches_hamming. Qed.
+Print Assumptions C11_agreement_matches_hamming_fixed_alt.
 
 (* ============================ block intersection ============================================= *)
 
